@@ -103,3 +103,11 @@ func (m *Manager) VerifWALDir() string { return m.walDir }
 
 // VerifSSTDir returns the table directory.
 func (m *Manager) VerifSSTDir() string { return m.sstableDir }
+
+// VerifSwitch makes the active memtable immutable and schedules its flush, exactly
+// as a write that fills the table does (the background flush runs only when scheduled).
+func (m *Manager) VerifSwitch() {
+	m.mu.Lock()
+	defer m.mu.Unlock()
+	m.scheduleFlush()
+}
